@@ -208,6 +208,7 @@ fn ast_pat(p: &syn::Pat) -> J {
     match p {
         syn::Pat::Ident(i) if i.subpat.is_none() => a("pid", vec![s(&i.ident)]),
         syn::Pat::Wild(_) => a("wild", vec![]),
+        syn::Pat::Tuple(t) => a("ptuple", vec![J::A(t.elems.iter().map(ast_pat).collect())]),
         syn::Pat::Rest(_) => a("rest", vec![]),
         syn::Pat::TupleStruct(t) => a("pts", vec![ast_path(&t.path), J::A(t.elems.iter().map(ast_pat).collect())]),
         syn::Pat::Path(pp) => a("ppath", vec![ast_path(&pp.path)]),
@@ -271,6 +272,7 @@ fn ast_expr(e: &syn::Expr) -> J {
             syn::Lit::Int(i) => a("int", vec![s(i.base10_digits())]),
             syn::Lit::Bool(b) => a("bool", vec![J::B(b.value)]),
             syn::Lit::Str(x) => a("str", vec![s(x.value())]),
+            syn::Lit::Char(x) => a("char", vec![s(x.value())]),
             l => a("unsupported", vec![jn(l)]),
         },
         E::Path(p) if p.qself.is_none() => a("path", vec![ast_path(&p.path)]),
@@ -312,6 +314,7 @@ fn ast_expr(e: &syn::Expr) -> J {
         ),
         E::Block(b) if b.label.is_none() => a("block", vec![ast_block(&b.block)]),
         E::While(w) if w.label.is_none() => a("while", vec![ast_expr(&w.cond), ast_block(&w.body)]),
+        E::ForLoop(f) if f.label.is_none() => a("for", vec![ast_pat(&f.pat), ast_expr(&f.expr), ast_block(&f.body)]),
         E::Assign(x) => a("assign", vec![ast_expr(&x.left), ast_expr(&x.right)]),
         E::Repeat(r) => a("repeat", vec![ast_expr(&r.expr), ast_expr(&r.len)]),
         E::Array(x) => a("array", vec![J::A(x.elems.iter().map(ast_expr).collect())]),
